@@ -36,7 +36,7 @@ def conditions_in(path: Path):
 
 def env():
     e = dict(os.environ)
-    e["PYTHONPATH"] = f"{HARNESS}:{ROOT}:{ROOT / 'stubs' / 'py'}:/repo"
+    e["PYTHONPATH"] = f"{os.environ.get('VERIF_REPO', '/repo')}:{HARNESS}:{ROOT}:{ROOT / 'stubs' / 'py'}"
     e["PYTHONDONTWRITEBYTECODE"] = "1"
     e["PYTHONHASHSEED"] = "0"
     return e
